@@ -3,6 +3,7 @@ from .. import ast as A
 from .. import simplify as S
 from .. import terms as T
 from .. import vmloops as V
+from .. import asmchecks as AC
 
 
 def r2c_tracing_operand_order(rule, root=None):
@@ -38,3 +39,6 @@ def run(ctx):
     ctx.guarded(r, S.r3_order_parity)
     r = ctx.rule("R5", "loop tail, op accounting and the result struct (shared vars, recounted choices)", 6)
     ctx.guarded(r, S.r_tail)
+    r = ctx.rule("R7", "native tracing assemblers follow the choice protocol simplify relies on", 2 * 26)
+    for kind in AC.TRACING:
+        ctx.guarded(r, AC.check_choice_protocol, kind)
